@@ -535,8 +535,12 @@ func (st *stmt) query_(args []Value) (driver.Rows, error) {
 	return newRows(st.c, rs, true), nil
 }
 
-func (st *stmt) Exec(args []driver.Value) (driver.Result, error) { return st.exec(valuesToValues(args)) }
-func (st *stmt) Query(args []driver.Value) (driver.Rows, error)  { return st.query_(valuesToValues(args)) }
+func (st *stmt) Exec(args []driver.Value) (driver.Result, error) {
+	return st.exec(valuesToValues(args))
+}
+func (st *stmt) Query(args []driver.Value) (driver.Rows, error) {
+	return st.query_(valuesToValues(args))
+}
 func (st *stmt) ExecContext(ctx context.Context, args []driver.NamedValue) (driver.Result, error) {
 	return st.exec(namedToValues(args))
 }
